@@ -43,7 +43,7 @@ def run(chk, tmp, replay=None):
                          "corruptions": "10 structural JSON corruptions; type confusion: every node of a rich document x 24 wrongly typed values (JSON, YAML), YAML-only shapes (empty entries, anchors, tags), every Makefile annotation field x menu, every Starlark builtin keyword x 27 literals; every single-byte deletion/truncation/insertion (thorough: replacement, transposition) of one rendering per format; seeded multi-byte mutations of renderings in all four formats", "worker_counts": [1, 2, 4, 8, 16]}
     if p.returncode != 0:
         text = p.stderr
-        frames = re.findall(r"(/repo/internal/\S+:\d+)", text)
+        frames = re.findall(r"(" + re.escape(core.REPO) + r"/internal/\S+:\d+)", text)
         if ("panic:" in text or "fatal error:" in text) and frames:
             case = ""
             try:
